@@ -5,9 +5,15 @@
 -/
 import GormModel.Model.Callbacks
 import GormModel.Lemmas.Callbacks
+import GormModel.Lemmas.CallbacksReach
+import GormModel.Lemmas.CallbacksPost
+import GormModel.Lemmas.CallbacksTable
+import GormModel.Lemmas.CallbacksFuel
+import GormModel.Lemmas.CallbacksPrefix
 import GormModel.Gen.Pipelines
 namespace Gorm
 open Gen
+open CbL
 
 /-- the built-in registrations of one pipeline as model operations (handler id = position) -/
 def builtinOps (regs : List CbReg) : List RegOp :=
@@ -35,6 +41,148 @@ theorem C17_sortCallback_nodup (names : List String) (fuel i : Nat) (st : SortSt
 theorem C17_sorted_nodup (cs : List Cb) : (sortCallbacks cs).sorted.Nodup :=
   sortCallbacks_nodup cs
 
+/-- `getRIndex` returns the LAST index of the name (so "the handler of a name" = that of its last record) -/
+theorem C17_getRIndex_some (l : List String) (s : String) (k : Nat) (h : getRIndex l s = some k) :
+    k < l.length ∧ l[k]! = s ∧ ∀ j, k < j → j < l.length → l[j]! ≠ s := getRIndex_some l s k h
+
+/-- COMPLETENESS + SOUNDNESS of the order, for EVERY callback table (all sizes, all constraints, whatever
+    `before`/`after` rewrites earlier compiles left behind): if `sortCallbacks` returns no error -- in
+    particular it did not run out of fuel -- the computed order consists of exactly the names of the table.
+    With `C17_sorted_nodup`: every name of the table is placed exactly once. -/
+theorem C17_sorted_complete (cs : List Cb) (hok : (sortCallbacks cs).err = none) (n : String) :
+    n ∈ (sortCallbacks cs).sorted ↔ n ∈ cs.map (·.name) := by
+  constructor
+  · exact sortCallbacks_sorted_subset cs n
+  · intro hn
+    obtain ⟨c, hc, rfl⟩ := List.mem_map.mp hn
+    exact sortCallbacks_complete cs hok c hc
+
+/-- even when an error is returned, nothing but names of the table is ever placed -/
+theorem C17_sorted_subset (cs : List Cb) : ∀ s ∈ (sortCallbacks cs).sorted, s ∈ cs.map (·.name) :=
+  sortCallbacks_sorted_subset cs
+
+/-- `compile` never leaves a Remove marker or an unmatched record in `p.callbacks`, and after ANY history
+    the names present in `p.callbacks` are exactly the live ones (`liveName`: registered with a matching
+    `Match`, or `Replace`d, after the last `Remove` of that name) -- `removeCallbacks` drops exactly the
+    removed names, the `before`/`after` rewrites of `sortCallback` never touch names. -/
+theorem C17_table_is_live_names (h : List RegOp) :
+    Clean (Proc.run {} h).1.callbacks ∧
+    ∀ n, n ∈ (Proc.run {} h).1.callbacks.map (·.name) ↔ liveName h n :=
+  ⟨run_clean h, run_names h⟩
+
+/-- MAIN (every registered, non-removed callback runs exactly once), for ALL histories `h` and any further
+    call `op`: if that call returns no error, then the execution order `order` (ghost: the names of `p.fns`)
+    is duplicate-free, consists of exactly the live names of `h ++ [op]`, and `p.fns` holds exactly one
+    handler per placed name -- that of the LAST record with the name (the rule of `processor.Get`). -/
+theorem C17_exactly_once (h : List RegOp) (op : RegOp) :
+    let r := (Proc.run {} h).1.apply op
+    r.2 = none →
+      r.1.order.Nodup ∧ (∀ n, n ∈ r.1.order ↔ liveName (h ++ [op]) n) ∧
+      r.1.fns = r.1.order.filterMap (handlerOf r.1.callbacks) ∧ r.1.fns.length = r.1.order.length := by
+  intro r hok
+  have hclean := run_clean h
+  have hord : ∀ n, n ∈ r.1.order ↔ liveName (h ++ [op]) n := by
+    intro n
+    rw [liveName_snoc]
+    rw [apply_order _ hclean op hok n]
+    exact liveStep_congr (run_names h) op n
+  have hfns : r.1.fns = r.1.order.filterMap (handlerOf r.1.callbacks) :=
+    sortCallbacks_fns _ hok
+  refine ⟨sortCallbacks_nodup _, hord, hfns, ?_⟩
+  rw [hfns]
+  apply length_filterMap_of_isSome
+  intro n hn
+  apply handlerOf_isSome _ (compile_clean _)
+  have h1 := (apply_order _ hclean op hok n).mp hn
+  exact (apply_names _ hclean op n).mpr h1
+
+/-- non-vacuity of `C17_exactly_once`: a history with Before/After/Replace/Remove whose last call succeeds -/
+example : ((Proc.run {} [.register "a" "" "" true 0, .register "b" "" "" true 1, .register "x" "b" "" true 2,
+    .remove "a", .replace "b" "" "" 7]).1.apply (.register "y" "" "x" true 3)).2 = none ∧
+    ((Proc.run {} [.register "a" "" "" true 0, .register "b" "" "" true 1, .register "x" "b" "" true 2,
+    .remove "a", .replace "b" "" "" 7]).1.apply (.register "y" "" "x" true 3)).1.fns = [2, 7, 3] := by
+  decide
+
+/-- PLACED CALLBACKS NEVER MOVE: whatever one `sortCallback` call does (recursion, rewrites, error or not),
+    the old order is a subsequence of the new one -- names are only ever inserted, never moved or dropped.
+    (`WF`: `names` is the name column of the table, as set up by `sortCallbacks`.) -/
+theorem C17_placed_never_move (names : List String) (fuel i : Nat) (st : SortSt)
+    (hw : WF names st) (hi : i < st.cs.size) :
+    st.sorted.Sublist (sortCallback names fuel i st).1.sorted :=
+  reach_sub (sortCallback_reach names fuel i st hw hi)
+
+/-- a successful `sortCallback` call places the visited callback, and every `after` field it rewrote
+    (the back-links `cs[idx].after = c.name`) names a callback that is placed when it returns -/
+theorem C17_visit_places (names : List String) (fuel i : Nat) (st : SortSt)
+    (hw : WF names st) (hi : i < st.cs.size) (hok : (sortCallback names fuel i st).2 = none) :
+    (st.cs[i]!).name ∈ (sortCallback names fuel i st).1.sorted ∧
+    ∀ j : Nat, ((sortCallback names fuel i st).1.cs[j]!).after = (st.cs[j]!).after ∨
+         ((sortCallback names fuel i st).1.cs[j]!).after ∈ (sortCallback names fuel i st).1.sorted :=
+  sortCallback_post names fuel i st hw hi hok
+
+/-- BUILT-IN ORDER, table form (all sizes): if the table handed to the main loop (= after the
+    `sort.SliceStable` pre-pass) starts with `k` records that carry no request and have pairwise distinct
+    names -- the situation of the built-in callbacks as long as nobody is registered Before("*") or under a
+    built-in name -- then these `k` names occur in the computed order in exactly their table order, whatever
+    the remaining records request and whether or not an error is returned. (The step from histories to this
+    table shape is NOT proved; the e2e oracle judges the built-in order for histories.) -/
+theorem C17_unconstrained_prefix_keeps_order (cs0 : List Cb) (k : Nat) (hk : k ≤ (stableSortCbs cs0).length)
+    (hp : ∀ j, j < k → ((stableSortCbs cs0)[j]!).before = "" ∧ ((stableSortCbs cs0)[j]!).after = "")
+    (hnd : (((stableSortCbs cs0).take k).map (·.name)).Nodup) :
+    (((stableSortCbs cs0).take k).map (·.name)).Sublist (sortCallbacks cs0).sorted := by
+  have h := sortLoop_prefix_order (stableSortCbs cs0) k hk (sortFuel (stableSortCbs cs0).length)
+    (by simp [sortFuel]) hp hnd
+  unfold sortCallbacks
+  simp only
+  split
+  · rename_i st e heq
+    rw [heq] at h; exact h
+  · rename_i st heq
+    rw [heq] at h; exact h
+
+/-- non-vacuity: the seven built-ins of the create pipeline followed by two user callbacks with requests -/
+example : ((stableSortCbs [{name := "a"}, {name := "b"}, {name := "x", before := "b"}, {name := "y", after := "*"}]).take 2).map (·.name)
+    = ["a", "b"] := by decide
+
+/-- The negation of F12's pattern, as a predicate over the history: the requested precedences
+    ("`After(a).Register(n)`: a before n", "`Before(b).Register(n)`: n before b") among names that are
+    registered somewhere in the history are ACYCLIC -- witnessed by a rank function. (A self reference or
+    an After/Before cycle admits no such rank.) -/
+def AcyclicRequests (h : List RegOp) : Prop :=
+  ∃ rank : String → Nat, ∀ op ∈ h,
+    (op.toCb.after ≠ "" → (∃ o ∈ h, o.toCb.name = op.toCb.after) → rank op.toCb.after < rank op.toCb.name) ∧
+    (op.toCb.before ≠ "" → (∃ o ∈ h, o.toCb.name = op.toCb.before) → rank op.toCb.name < rank op.toCb.before)
+
+/-- FUEL ADEQUACY, table level, with the explicit bound: for EVERY table whose stored requests are respected
+    by some rank function, the main loop with any fuel >= n + 2 (n = number of records) never reports
+    "out of fuel" -- the recursion depth of `sortCallback` is at most n + 1. (`sortFuel n = 4n + 8`.) -/
+theorem C17_fuel_bound (cs : List Cb) (rank : String → Nat) (fuel : Nat) (hf : cs.length + 2 ≤ fuel)
+    (hr : RKlist (· ∈ cs.map (·.name)) rank cs) :
+    (sortLoop (cs.map (·.name)) fuel cs.length 0 { cs := cs.toArray, sorted := [] }).2 ≠ some .fuel :=
+  sortLoop_nofuel (cs.map (·.name)) (· ∈ cs.map (·.name)) rank (fun _ h => h) fuel cs.length 0 _
+    (by simpa using hf) (wf_init cs) (rk_init _ rank cs hr) (by simp)
+
+/-- FUEL ADEQUACY / TERMINATION for ALL histories outside F12's pattern: if the requests of a history are
+    acyclic, NO call of the history runs out of fuel (so the model's verdict "out of fuel", which the
+    differential suite equates with "the Go process dies of unbounded recursion", can only arise from a
+    self/cyclic reference). -/
+theorem C17_fuel_adequate (h : List RegOp) (hac : AcyclicRequests h) :
+    ∀ e ∈ (Proc.run {} h).2, e ≠ some SortErr.fuel := by
+  obtain ⟨rank, hr⟩ := hac
+  apply run_nofuel (fun s => ∃ o ∈ h, o.toCb.name = s) rank h
+  · intro op hop
+    refine ⟨⟨op, hop, rfl⟩, ?_⟩
+    intro c hc
+    simp at hc; subst hc
+    exact hr op hop
+  · exact ⟨fun c hc => (nomatch hc), fun c hc => (nomatch hc)⟩
+  · intro e he; cases he
+
+/-- non-vacuity: a history with Before and After requests (incl. a forward reference) is acyclic -/
+example : AcyclicRequests [.register "a" "" "" true 0, .register "x" "a" "y" true 1, .register "y" "" "" true 2] := by
+  refine ⟨fun s => if s = "y" then 0 else if s = "x" then 1 else 2, ?_⟩
+  decide
+
 /-- FINDING F12 (counterexample, kernel-checked): a callback that names itself never finishes sorting:
     the model runs out of fuel (the Go code overflows the stack instead of returning an error). -/
 theorem C17_selfref_counterexample :
@@ -57,6 +205,46 @@ theorem C17_replace_star_ignored_counterexample :
 theorem C17_before_overwrites_after_counterexample :
     (Proc.run {} [.register "u2" "u1" "" true 0, .register "u1" "" "u3" true 1, .register "u3" "" "" true 2]).1.fns
       = [0, 1, 2] := by
+  decide
+
+/-- FINDING F17 (counterexample; found while proving, replayed on the real API): a SECOND `Before(b)`
+    overwrites the back-link the first one left on `b` (`cs[idx].after = c.name`), so only the last requester
+    is checked when `b` is placed: `c` was registered Before("b") but runs after it, no error, although
+    {cl < x, c < b, cl < b, b < z} is satisfiable. -/
+theorem C17_second_before_overwrites_backlink_counterexample :
+    let r := Proc.run {} [.register "x" "" "cl" true 0, .register "z" "" "" true 1, .register "c" "b" "" true 2,
+      .register "cl" "b" "" true 3, .register "b" "z" "" true 4]
+    r.2 = [none, none, none, none, none] ∧ r.1.order = ["cl", "x", "b", "z", "c"] := by
+  decide
+
+/-- FINDING F18 (counterexample; found by the widened generator, reproduced on the real API): an After("*")
+    callback that another callback names in After(...) is placed when the requester is visited, in front of a
+    later plain registration: `s` asked for After("*") but runs before the unconstrained `p`. -/
+theorem C17_star_pulled_forward_counterexample :
+    let r := Proc.run {} [.register "a" "" "" true 0, .register "s" "" "*" true 1, .register "q" "" "s" true 2,
+      .register "p" "" "" true 3]
+    r.2 = [none, none, none, none] ∧ r.1.order = ["a", "s", "q", "p"] := by
+  decide
+
+/-- FINDING F19 (counterexample; found by the thorough tier with the widened generator, reproduced on the real
+    API): a name registered twice, once Before("*") and once After("*"): an unrelated plain Replace of `a`
+    moves `u` from the tail to the head (and switches its handler) -- the Replace does not leave the other
+    callbacks at their positions. -/
+theorem C17_duplicate_star_reshuffled_counterexample :
+    let h : List RegOp := [.register "a" "" "" true 0, .register "b" "" "" true 1, .register "u" "*" "" true 2,
+      .register "u" "" "*" true 3]
+    (Proc.run {} h).1.order = ["a", "b", "u"] ∧
+    (Proc.run {} (h ++ [.replace "a" "" "" 9])).1.order = ["u", "a", "b"] ∧
+    (Proc.run {} (h ++ [.replace "a" "" "" 9])).2 = [none, none, none, none, none] := by
+  decide
+
+/-- FINDING F20 (counterexample; found by the thorough tier, reproduced on the real API): the back-link a removed
+    callback left behind survives its Remove: `c` Before("x") rewrites `x.after := "c"`; after Remove("c") a new
+    `c` registered After("*") is pulled in front of the unconstrained `x` (and of `p`). -/
+theorem C17_stale_backlink_counterexample :
+    let r := Proc.run {} [.register "a" "" "" true 0, .register "c" "x" "" true 1, .register "x" "" "" true 2,
+      .remove "c", .register "c" "" "*" true 4]
+    r.2 = [none, none, none, none, none] ∧ r.1.order = ["a", "c", "x"] := by
   decide
 
 /-- positive instance (non-vacuity of the model): Before/After requests that gorm does honour -/
